@@ -252,7 +252,10 @@ def _history_once(model, hist, planted=False, deep=False):
                 continue
             payload = dict(kind="hist", model=K.enc(model), hist=list(hist), ob="solve")
             names_all = allv + [f"p{i}_{k}" for i in (1, 2) for k in range(len(hist) + 1)]
-            rr = SV.minimize_call_obligations(ms.calls[0], model, cols, current(), [], htag, f"{model['tag']}|after-set={'y' if any(h.startswith('set') for h in hist[:step]) else 'n'}",
+            # (the signature says whether this is a RE-solve after an update: a solve, then a set, then this solve)
+            first_solve = next((i for i, h in enumerate(hist[:step]) if h.startswith("solve")), None)
+            resolve = first_solve is not None and any(h.startswith("set") for h in hist[first_solve:step])
+            rr = SV.minimize_call_obligations(ms.calls[0], model, cols, current(), [], htag, f"{model['tag']}|after-set={'y' if any(h.startswith('set') for h in hist[:step]) else 'n'}" + ("|re-solve" if resolve else ""),
                                               method, "C12", QT[_TIER], names_all, payload, planted=planted, check_x0=False)
             res += rr
     return res
